@@ -725,6 +725,20 @@ impl FinishedSession {
             return Ok(Some(self));
         }
 
+        // Check the changeset against the current root before touching the rollback log: a
+        // rejected changeset must not leave its delta behind. The write guard is held, so the
+        // root cannot change between this check and the update below.
+        {
+            let shared = nomt.shared.lock();
+            if shared.root != self.prev_root {
+                anyhow::bail!(
+                    "Changeset no longer valid (expected previous root {:?}, got {:?})",
+                    self.prev_root,
+                    shared.root
+                );
+            }
+        }
+
         if let Some(rollback_delta) = self.rollback_delta {
             // UNWRAP: if rollback_delta is `Some`, then rollback must be also `Some`.
             let rollback = nomt.store.rollback().unwrap();
@@ -736,13 +750,6 @@ impl FinishedSession {
 
         {
             let mut shared = nomt.shared.lock();
-            if shared.root != self.prev_root {
-                anyhow::bail!(
-                    "Changeset no longer valid (expected previous root {:?}, got {:?})",
-                    self.prev_root,
-                    shared.root
-                );
-            }
             shared.root = Root(self.merkle_output.root);
             shared.last_commit_marker = None;
         }
